@@ -135,6 +135,10 @@ func (session *BaseOutSession) HandleInterleavedPacket(b []byte, channel int) {
 
 func (session *BaseOutSession) WriteRtpPacket(packet rtprtcp.RtpPacket) error {
 	var err error
+	// handed: the packet was given to a connection. A track the player never SETUP has neither a udp
+	// conn nor an interleaved channel: its packets go nowhere and must not be counted as written
+	// (the alive check compares the write counter, a stalled player would never time out).
+	var handed bool
 
 	// 发送数据时，保证和sdp的原始类型对应
 	t := int(packet.Header.PacketType)
@@ -146,9 +150,11 @@ func (session *BaseOutSession) WriteRtpPacket(packet rtprtcp.RtpPacket) error {
 
 		if session.audioRtpConn != nil {
 			err = session.audioRtpConn.Write(packet.Raw)
+			handed = true
 		}
 		if session.audioRtpChannel != -1 {
 			err = session.cmdSession.WriteInterleavedPacket(packet.Raw, session.audioRtpChannel)
+			handed = true
 		}
 	} else if session.sdpCtx.IsVideoPayloadTypeOrigin(t) {
 		if session.loggedWriteVideoRtpCount < session.debugLogMaxCount {
@@ -158,16 +164,18 @@ func (session *BaseOutSession) WriteRtpPacket(packet rtprtcp.RtpPacket) error {
 
 		if session.videoRtpConn != nil {
 			err = session.videoRtpConn.Write(packet.Raw)
+			handed = true
 		}
 		if session.videoRtpChannel != -1 {
 			err = session.cmdSession.WriteInterleavedPacket(packet.Raw, session.videoRtpChannel)
+			handed = true
 		}
 	} else {
 		Log.Errorf("[%s] write rtp packet but type invalid. type=%d", session.UniqueKey(), t)
 		err = nazaerrors.Wrap(base.ErrRtsp)
 	}
 
-	if err == nil {
+	if err == nil && handed {
 		session.sessionStat.AddWriteBytes(len(packet.Raw))
 	}
 	return err
